@@ -175,5 +175,9 @@ func (s *SigBlob) VerifyPages(r io.Reader) error {
 		}
 		remaining -= int64(len(page))
 	}
+	if remaining > 0 {
+		// pages past the last slot would go unverified
+		return errors.New("not enough hash slots to cover indicated size")
+	}
 	return nil
 }
